@@ -55,10 +55,12 @@ PREFIXED = dict(
     events=['x3 = E "x"', '// 3 = E "x"', '-3 = E "lyric l"', '1.3 = E "section s"'],
     track=["x2 = S 2 5", "-2 = S 2 5", "// 2 = S 2 5", "1.2 = S 2 5", "2 = N 8 0 2 = S 2 5", "x2 = E solo", "// 2 = N 1 0", "1.2 = N 1 0", "2 = S 2 5 //", "2 = N 1 0 x"],
 )
+# unparsable lines that carry the SAME "<tick> = <kind letter>" head as a line of the base section
+SAMEHEAD = dict(sync=["10 = B x", "10 = TS", "10 = TS x 3", "20 = A", "0 = B 1 2"], events=["12 = E two words", "30 = E", "5 = E x y", '5 = E "a" b', "0 = E"], track=["0 = N 8 0", "3 = S 2", "4 = E two words", "12 = N 7", "0 = N 1"])
 GARBAGE = dict(
-    sync=["", "garbage", "0 = N 0 0", '0 = E "x"', "0 = B", "0 = TS", "5 = B x", " = B 1", "5 = A", "0 = BB 1"] + BRACES + LENIENT["sync"] + PREFIXED["sync"] + LOWERCASE["sync"] + SONGKIND,
-    events=["", "garbage", "0 = B 120000", "0 = E solo", "0 = N 0 0", '3 = E "unterminated', "3 = E", '= E "x"'] + BRACES + LENIENT["events"] + PREFIXED["events"] + LOWERCASE["events"] + SONGKIND,
-    track=["", "garbage", "2 = S 64 5", "2 = N 8 0", "2 = E two words", "0 = B 120000", '0 = E "section a"', "2 = S 2", "2 = N 0", "2 = N 0 0 0", "2 = S 1 5"] + BRACES + LENIENT["track"] + PREFIXED["track"] + LOWERCASE["track"] + SONGKIND,
+    sync=["", "garbage", "0 = N 0 0", '0 = E "x"', "0 = B", "0 = TS", "5 = B x", " = B 1", "5 = A", "0 = BB 1"] + BRACES + LENIENT["sync"] + PREFIXED["sync"] + LOWERCASE["sync"] + SONGKIND + SAMEHEAD["sync"],
+    events=["", "garbage", "0 = B 120000", "0 = E solo", "0 = N 0 0", '3 = E "unterminated', "3 = E", '= E "x"'] + BRACES + LENIENT["events"] + PREFIXED["events"] + LOWERCASE["events"] + SONGKIND + SAMEHEAD["events"],
+    track=["", "garbage", "2 = S 64 5", "2 = N 8 0", "2 = E two words", "0 = B 120000", '0 = E "section a"', "2 = S 2", "2 = N 0", "2 = N 0 0 0", "2 = S 1 5"] + BRACES + LENIENT["track"] + PREFIXED["track"] + LOWERCASE["track"] + SONGKIND + SAMEHEAD["track"],
 )
 
 SCRIPT = """{observe_src}
